@@ -331,8 +331,7 @@ func (v *visitor) VisitLiteral(ctx *parser.LiteralContext) any {
 		if text[0] == '\'' {
 			// Unquote 内部假定单引号括起的都是单个字符
 			// 我们允许单引号括起字符串 这里兼容一下 转为双引号
-			text = strings.ReplaceAll(text, "\\'", "'")
-			text = `"` + text[1:len(text)-1] + `"`
+			text = `"` + singleToDoubleQuoted(text[1:len(text)-1]) + `"`
 		}
 		t, err := strconv.Unquote(text) // 去除引号
 		if err != nil {
@@ -364,6 +363,30 @@ func (v *visitor) VisitLiteral(ctx *parser.LiteralContext) any {
 	default:
 		panic("assert error")
 	}
+}
+
+// singleToDoubleQuoted 将单引号字符串的内容改写为等价的双引号字符串内容:
+// \' 变为 ', 未转义的 " 变为 \", 其他转义序列原样保留
+func singleToDoubleQuoted(body string) string {
+	var sb strings.Builder
+	for i := 0; i < len(body); i++ {
+		c := body[i]
+		switch {
+		case c == '\\' && i+1 < len(body):
+			i++
+			if body[i] == '\'' {
+				sb.WriteByte('\'')
+			} else {
+				sb.WriteByte('\\')
+				sb.WriteByte(body[i])
+			}
+		case c == '"':
+			sb.WriteString(`\"`)
+		default:
+			sb.WriteByte(c)
+		}
+	}
+	return sb.String()
 }
 
 func (v *visitor) VisitExpressionList(ctx *parser.ExpressionListContext) any {
